@@ -210,19 +210,42 @@ Proof.
 Qed.
 
 (* ---- what a history that passes the check guarantees ------------------------------------------ *)
-Lemma memN_In x l : memN x l = true <-> In x l.
+Lemma memN_In x l : memN x l = true <-> exists y, In y l /\ mhkey y = mhkey x.
 Proof.
-  unfold memN. rewrite existsb_exists. split.
-  - intros (y & Hy & E). apply N.eqb_eq in E. subst. exact Hy.
-  - intro H. exists x. split; [exact H|apply N.eqb_refl].
+  unfold memN, same_mh. rewrite existsb_exists. split.
+  - intros (y & Hy & E). apply N.eqb_eq in E. exists y. auto.
+  - intros (y & Hy & E). exists y. split; [exact Hy|apply N.eqb_eq; auto].
 Qed.
 
-Lemma add_keys_In k ids : forall ks, In k (add_keys ks ids) <-> In k ks \/ In k ids.
+Lemma firstN_spec x l : memN x l = true -> In (firstN x l) l /\ mhkey (firstN x l) = mhkey x.
 Proof.
-  induction ids as [|i ids IH]; intro ks; cbn; [tauto|]. rewrite IH.
-  destruct (memN i ks) eqn:E.
-  - apply memN_In in E. split; [tauto|]. intros [H|[<-|H]]; auto.
-  - rewrite in_app_iff. cbn. tauto.
+  unfold memN, firstN. intro H. destruct (find (same_mh x) l) as [j|] eqn:E.
+  - apply find_some in E as [Hj Hs]. unfold same_mh in Hs. apply N.eqb_eq in Hs. auto.
+  - apply existsb_exists in H as (y & Hy & Hs). rewrite (find_none _ _ E y Hy) in Hs. discriminate.
+Qed.
+
+Lemma add_keys_incl k ids : forall ks, In k ks -> In k (add_keys ks ids).
+Proof.
+  induction ids as [|i ids IH]; intros ks H; cbn; [exact H|]. apply IH.
+  destruct (memN i ks); [exact H|apply in_or_app; auto].
+Qed.
+
+Lemma add_keys_In k ids : forall ks, In k (add_keys ks ids) -> In k ks \/ In k ids.
+Proof.
+  induction ids as [|i ids IH]; intro ks; cbn; [tauto|]. intro H. apply IH in H as [H|H]; [|auto].
+  destruct (memN i ks); [auto|]. apply in_app_or in H as [H|[<-|[]]]; auto.
+Qed.
+
+Lemma memN_incl x a b : (forall y, In y a -> In y b) -> memN x a = true -> memN x b = true.
+Proof. intros Hi H. apply memN_In in H as (y & Hy & E). apply memN_In. exists y. auto. Qed.
+
+(* after putting ids, every one of them is present (under its multihash) *)
+Lemma add_keys_mem k ids : forall ks, In k ids -> memN k (add_keys ks ids) = true.
+Proof.
+  induction ids as [|i ids IH]; intros ks []; cbn.
+  - subst i. apply (memN_incl k (if memN k ks then ks else ks ++ [k])); [intros y; apply add_keys_incl|].
+    destruct (memN k ks) eqn:E; [exact E|]. apply memN_In. exists k. split; [apply in_or_app; right; left|]; reflexivity.
+  - apply IH. assumption.
 Qed.
 
 Ltac split_ifs :=
@@ -253,18 +276,18 @@ Proof.
   destruct s as [ks fn cl cr], o as [kd ids].
   unfold spec_step, step_blockstore, step_storage, step_deferred, read_ops, fin_ro_step, close_step.
   cbn [c_kind c_ids s_keys s_closed s_fin s_created with_keys with_fin with_closed with_created].
-  intro H. split_ifs; cbn; auto; apply add_keys_In; auto.
+  intro H. split_ifs; cbn; auto; apply add_keys_incl; auto.
 Qed.
 
 Lemma spec_step_put_ok store v1 s o k :
   is_put o -> snd (spec_step store v1 s o) = ROk -> In k (c_ids o) ->
-  In k (s_keys (fst (spec_step store v1 s o))).
+  memN k (s_keys (fst (spec_step store v1 s o))) = true.
 Proof.
   destruct s as [ks fn cl cr], o as [kd ids]. unfold is_put. cbn [c_kind c_ids].
   unfold spec_step, step_blockstore, step_storage, step_deferred, read_ops, fin_ro_step, close_step.
   cbn [c_kind c_ids s_keys s_closed s_fin s_created with_keys with_fin with_closed with_created].
   intros Hk Hr Hin. destruct Hk as [-> | ->]; cbn in *; split_ifs; cbn in *; try discriminate;
-    apply add_keys_In; auto.
+    apply add_keys_mem; auto.
 Qed.
 
 (* Has / Get answer from the current key set; Get returns the block that was asked for *)
@@ -280,12 +303,12 @@ Qed.
 
 Lemma spec_step_get store v1 s o x :
   c_kind o = 3%N -> snd (spec_step store v1 s o) = RNum x ->
-  x = first_id o /\ In (first_id o) (s_keys s).
+  In x (s_keys s) /\ mhkey x = mhkey (first_id o).
 Proof.
   destruct s as [ks fn cl cr], o as [kd ids]. cbn [c_kind]. intros -> .
   unfold spec_step, step_blockstore, step_storage, step_deferred, read_ops.
   cbn [c_kind c_ids s_keys s_closed s_fin s_created].
-  intro H. split_ifs; cbn in *; try discriminate; inversion H; split; auto; apply memN_In; assumption.
+  intro H. split_ifs; cbn in *; try discriminate; inversion H; subst; apply firstN_spec; assumption.
 Qed.
 
 Lemma res_eqb_ok x : res_eqb x ROk = true -> x = ROk.
@@ -368,15 +391,17 @@ Proof.
 Qed.
 
 (* a block whose Put (or PutMany) has returned successfully before Has was invoked is reported present
-   (unless the store has been closed meanwhile, in which case Has answers with an error, not "absent") *)
-Theorem lin_put_then_has a b k r :
+   -- also when it is asked for under another CID with the same multihash -- (unless the store has been
+   closed meanwhile, in which case Has answers with an error, not "absent") *)
+Theorem lin_put_then_has a b k k' r :
   a < length ops -> b < length ops ->
   is_put (nth_op ops a) -> In k (c_ids (nth_op ops a)) -> nth a results RNone = ROk ->
-  c_kind (nth_op ops b) = 2%N -> first_id (nth_op ops b) = k -> nth b results RNone = RNum r ->
+  c_kind (nth_op ops b) = 2%N -> first_id (nth_op ops b) = k' -> mhkey k' = mhkey k ->
+  nth b results RNone = RNum r ->
   (h_ret hist a < h_inv hist b)%N ->
   r = 1%N.
 Proof.
-  intros Ha Hb Hput Hk Hra Hkind Hid Hrb Hrt.
+  intros Ha Hb Hput Hk Hra Hkind Hid Hmh Hrb Hrt.
   destruct lin_parts as (Hperm & Hrtok & sf & Hrep).
   assert (a <> b) as Hne by (intro; subst; destruct Hput as [E|E]; rewrite E in Hkind; discriminate).
   destruct (rt_order hist w a b Hrtok (perm_ok_in _ _ _ Hperm Ha) (perm_ok_in _ _ _ Hperm Hb) Hne Hrt)
@@ -384,18 +409,21 @@ Proof.
   destruct (replay_split _ _ _ _ _ _ _ _ _ Hrep) as (s1 & _ & Hres & Hrest).
   rewrite Hra in Hres. apply res_eqb_ok in Hres.
   pose proof (spec_step_put_ok store v1 s1 (nth_op ops a) k Hput Hres Hk) as Hin.
+  apply memN_In in Hin as (y & Hy & Ey).
   apply in_split in Hb2 as (u1 & u2 & ->).
   destruct (replay_split _ _ _ _ _ _ _ _ _ Hrest) as (s2 & Hpre & Hres2 & _).
   rewrite Hrb in Hres2. apply res_eqb_num in Hres2.
-  pose proof (replay_mono _ _ _ _ _ k _ _ Hpre Hin) as Hin2.
+  pose proof (replay_mono _ _ _ _ _ y _ _ Hpre Hy) as Hin2.
   rewrite (spec_step_has store v1 s2 (nth_op ops b) r Hkind Hres2), Hid.
-  apply memN_In in Hin2. rewrite Hin2. reflexivity.
+  assert (memN k' (s_keys s2) = true) as Hm by (apply memN_In; exists y; split; [exact Hin2|congruence]).
+  rewrite Hm. reflexivity.
 Qed.
 
-(* ... and Get returns exactly that block (ids stand for the exact bytes) whenever it returns a block *)
+(* ... and whenever Get returns a block, it is a block with the multihash that was asked for (ids stand
+   for the exact bytes) that some Put invoked before the Get returned has carried *)
 Theorem lin_get_exact b x :
   b < length ops -> c_kind (nth_op ops b) = 3%N -> nth b results RNone = RNum x ->
-  x = first_id (nth_op ops b) /\
+  mhkey x = mhkey (first_id (nth_op ops b)) /\
   exists a, a < length ops /\ is_put (nth_op ops a) /\ In x (c_ids (nth_op ops a)) /\
             ~ (h_ret hist b < h_inv hist a)%N.
 Proof.
@@ -403,25 +431,24 @@ Proof.
   pose proof (perm_ok_in _ _ _ Hperm Hb) as Hbw. apply in_split in Hbw as (w1 & w2 & ->).
   destruct (replay_split _ _ _ _ _ _ _ _ _ Hrep) as (s1 & Hpre & Hres & _).
   rewrite Hrb in Hres. apply res_eqb_num in Hres.
-  destruct (spec_step_get store v1 s1 (nth_op ops b) x Hkind Hres) as [-> Hin].
-  split; [reflexivity|].
+  destruct (spec_step_get store v1 s1 (nth_op ops b) x Hkind Hres) as [Hin Hmh].
+  split; [exact Hmh|].
   destruct (replay_origin _ _ _ _ _ _ _ _ Hpre Hin) as [[]|(a & Ha & Hput & Hk)].
   exists a. repeat split; auto.
-  - (* a is a real operation: its kind is not the default one *)
-    destruct (Nat.lt_ge_cases a (length ops)) as [Hlt|Hge]; [exact Hlt|].
+  - destruct (Nat.lt_ge_cases a (length ops)) as [Hlt|Hge]; [exact Hlt|].
     unfold nth_op in Hput. rewrite nth_overflow in Hput by exact Hge. destruct Hput; discriminate.
-  - (* a is before b in the witness, so b did not return before a was invoked *)
-    clear - Hrtok Ha. induction w1 as [|y w1 IH]; [destruct Ha|].
+  - clear - Hrtok Ha. induction w1 as [|y w1 IH]; [destruct Ha|].
     cbn in Hrtok. apply andb_prop in Hrtok as [Hy Hr]. destruct Ha as [->|Ha]; [|auto].
     rewrite forallb_forall in Hy. specialize (Hy b (in_or_app _ _ _ (or_intror (in_eq _ _)))).
     apply negb_true_iff in Hy. apply N.ltb_ge in Hy. lia.
 Qed.
 
-(* Has never reports a block that no Put carried *)
+(* Has never reports a block whose multihash no Put carried *)
 Theorem lin_has_only_put b :
   b < length ops -> c_kind (nth_op ops b) = 2%N -> nth b results RNone = RNum 1%N ->
-  exists a, a < length ops /\ is_put (nth_op ops a) /\ In (first_id (nth_op ops b)) (c_ids (nth_op ops a)) /\
-            ~ (h_ret hist b < h_inv hist a)%N.
+  exists a x, a < length ops /\ is_put (nth_op ops a) /\ In x (c_ids (nth_op ops a)) /\
+              mhkey x = mhkey (first_id (nth_op ops b)) /\
+              ~ (h_ret hist b < h_inv hist a)%N.
 Proof.
   intros Hb Hkind Hrb. destruct lin_parts as (Hperm & Hrtok & sf & Hrep).
   pose proof (perm_ok_in _ _ _ Hperm Hb) as Hbw. apply in_split in Hbw as (w1 & w2 & ->).
@@ -429,9 +456,9 @@ Proof.
   rewrite Hrb in Hres. apply res_eqb_num in Hres.
   pose proof (spec_step_has store v1 s1 (nth_op ops b) 1%N Hkind Hres) as Hm.
   destruct (memN (first_id (nth_op ops b)) (s_keys s1)) eqn:Em; [|discriminate].
-  apply memN_In in Em.
-  destruct (replay_origin _ _ _ _ _ _ _ _ Hpre Em) as [[]|(a & Ha & Hput & Hk)].
-  exists a. repeat split; auto.
+  apply memN_In in Em as (x & Hx & Ex).
+  destruct (replay_origin _ _ _ _ _ _ _ _ Hpre Hx) as [[]|(a & Ha & Hput & Hk)].
+  exists a, x. repeat split; auto.
   - destruct (Nat.lt_ge_cases a (length ops)) as [Hlt|Hge]; [exact Hlt|].
     unfold nth_op in Hput. rewrite nth_overflow in Hput by exact Hge. destruct Hput; discriminate.
   - clear - Hrtok Ha. induction w1 as [|y w1 IH]; [destruct Ha|].
@@ -540,3 +567,28 @@ Qed.
 Example cb_fires_example :
   cb_fires [(0, true); (1, false); (2, true); (3, false)] 3 = [0; 1; 2; 3; 1; 3; 1; 3].
 Proof. reflexivity. Qed.
+
+(* ---- key families -------------------------------------------------------------------------------- *)
+Example mhkey_classes :
+  map mhkey [7; 100; 101; 102; 103; 104; 105; 113; 115]%N = [7; 100; 100; 100; 103; 103; 105; 113; 115]%N.
+Proof. reflexivity. Qed.
+
+(* sequentially: Put(v0), Put(v3) [same digest bytes, other hash code: another key], Put(v1) [same
+   multihash as v0: skipped], Has(v3), Get(v2) [finds v0's block], AllKeys, GetSize(v4) *)
+Example family_history :
+  snd (fold_left (fun acc o => let '(s, r) := spec_step 0 false (fst acc) o in (s, snd acc ++ [r]))
+        [ {| c_kind := 0; c_ids := [100%N] |}; {| c_kind := 0; c_ids := [103%N] |};
+          {| c_kind := 0; c_ids := [101%N] |}; {| c_kind := 2; c_ids := [103%N] |};
+          {| c_kind := 3; c_ids := [102%N] |}; {| c_kind := 5; c_ids := [] |};
+          {| c_kind := 4; c_ids := [104%N] |} ] (s_init, []))
+  = [ROk; ROk; ROk; RNum 1; RNum 100; RList [100; 103]%N; RNum (blk_size 103)].
+Proof. vm_compute. reflexivity. Qed.
+
+(* the defect class of a digest-only lookup: Put(v3) returned, a later Has(v3) answers "absent" --
+   rejected for every witness order *)
+Example family_stale_has_rejected :
+  forallb (fun w => negb (lin_check 0 false
+      [ {| c_kind := 0; c_ids := [100%N] |}; {| c_kind := 0; c_ids := [103%N] |}; {| c_kind := 2; c_ids := [103%N] |} ]
+      [(1, 2); (3, 4); (5, 6)]%N [ROk; ROk; RNum 0] w))
+    [[0; 1; 2]; [0; 2; 1]; [1; 0; 2]; [1; 2; 0]; [2; 0; 1]; [2; 1; 0]] = true.
+Proof. vm_compute. reflexivity. Qed.
